@@ -37,29 +37,36 @@ type WallCase struct {
 	Streams bool `json:"streams_urls"`
 	// BackS: the stream started this many seconds before the session is created (keeps the numbers small)
 	BackS int `json:"back_s"`
+	// SlowInitPct: the receiver takes this many percent of a segment duration to answer an init upload, so the live edge
+	// moves on while the init segments are being delivered (the media must start after the live edge of that moment)
+	SlowInitPct int `json:"slow_init_pct,omitempty"`
 }
 
 type wput struct {
 	path    string
 	body    []byte
 	atMS    int64 // wall clock when the request arrived
+	doneMS  int64 // wall clock when it was answered
 	aborted bool
 }
 
 type wrecv struct {
 	mu    sync.Mutex
-	puts  []wput
-	delay time.Duration
+	puts      []wput
+	delay     time.Duration
+	initDelay time.Duration
 }
 
 func (r *wrecv) ServeHTTP(w http.ResponseWriter, req *http.Request) {
 	at := time.Now().UnixMilli()
 	body, err := io.ReadAll(req.Body)
-	if !bytes.Contains(body[:min(len(body), 64)], []byte("ftyp")) && r.delay > 0 {
+	if isInit := bytes.Contains(body[:min(len(body), 64)], []byte("ftyp")); !isInit && r.delay > 0 {
 		time.Sleep(r.delay)
+	} else if isInit && r.initDelay > 0 {
+		time.Sleep(r.initDelay)
 	}
 	r.mu.Lock()
-	r.puts = append(r.puts, wput{path: req.URL.Path, body: body, atMS: at, aborted: err != nil})
+	r.puts = append(r.puts, wput{path: req.URL.Path, body: body, atMS: at, doneMS: time.Now().UnixMilli(), aborted: err != nil})
 	r.mu.Unlock()
 	w.WriteHeader(200)
 }
@@ -79,7 +86,7 @@ func genWall(t *rapid.T) (WallCase, *env.Env) {
 		t.Fatalf("HARNESS: %v", err)
 	}
 	c := WallCase{Target: tg, Type: rapid.SampledFrom([]string{"number", "time"}).Draw(t, "type"), Duration: rapid.IntRange(1, 3).Draw(t, "duration"),
-		SlowPct: rapid.SampledFrom([]int{0, 0, 40, 130, 250}).Draw(t, "slow"), Streams: rapid.Bool().Draw(t, "streams"), BackS: rapid.SampledFrom([]int{5, 30, 3000}).Draw(t, "back")}
+		SlowPct: rapid.SampledFrom([]int{0, 0, 40, 130, 250}).Draw(t, "slow"), SlowInitPct: rapid.SampledFrom([]int{0, 0, 150, 300}).Draw(t, "slow-init"), Streams: rapid.Bool().Draw(t, "streams"), BackS: rapid.SampledFrom([]int{5, 30, 3000}).Draw(t, "back")}
 	return c, e
 }
 
@@ -92,7 +99,7 @@ func checkWall(c WallCase, e *env.Env) (*hx.Violation, wallInfo) {
 	var inf wallInfo
 	segMS := int64(e.Asset.LoopMS) / int64(len(e.Asset.Ref.Segs))
 	total := int(int64(c.Duration) * 1000 / segMS)
-	rc := &wrecv{delay: time.Duration(segMS*int64(c.SlowPct)/100) * time.Millisecond}
+	rc := &wrecv{delay: time.Duration(segMS*int64(c.SlowPct)/100) * time.Millisecond, initDelay: time.Duration(segMS*int64(c.SlowInitPct)/100) * time.Millisecond}
 	srv := httptest.NewServer(rc)
 	defer srv.Close()
 	cfg := refmodel.DefaultCfg()
@@ -136,7 +143,7 @@ func checkWall(c WallCase, e *env.Env) (*hx.Violation, wallInfo) {
 	defer e.Srv.Do("DELETE", "/api/cmaf-ingests/"+resp.ID, nil, nil)
 	want := len(reps) * (1 + total)
 	// generous bound: stream time, plus the receiver's delay for every segment, plus 10 s
-	deadline := time.Now().Add(time.Duration(c.Duration)*time.Second + time.Duration(total)*rc.delay + 10*time.Second)
+	deadline := time.Now().Add(time.Duration(c.Duration)*time.Second + time.Duration(total)*rc.delay + time.Duration(len(reps))*rc.initDelay + 10*time.Second)
 	for time.Now().Before(deadline) && len(rc.snapshot()) < want {
 		time.Sleep(5 * time.Millisecond)
 	}
@@ -157,6 +164,13 @@ func checkWall(c WallCase, e *env.Env) (*hx.Violation, wallInfo) {
 		return f.Segments[0].Fragments[0].Moof.Mfhd.SequenceNumber, false, true
 	}
 	numRe := regexp.MustCompile(`(\d+)\.cmf[vat]$`)
+	// the instant the last init segment was answered: the stream starts after the live edge of that moment
+	var initDoneMS int64
+	for _, p := range puts {
+		if _, isInit, ok := seqOf(p.body); ok && isInit && p.doneMS > initDoneMS {
+			initDoneMS = p.doneMS
+		}
+	}
 	for _, r := range reps {
 		var ps []wput
 		for _, p := range puts {
@@ -195,9 +209,12 @@ func checkWall(c WallCase, e *env.Env) (*hx.Violation, wallInfo) {
 				first = n
 				// right after the live edge: the newest complete segment when the session was created .. when the first media upload arrived
 				lo, _ := tl.LastAvailable(t0)
+				if l2, _ := tl.LastAvailable(initDoneMS); initDoneMS > 0 && initDoneMS <= p.atMS && l2 > lo {
+					lo = l2
+				}
 				hi, _ := tl.LastAvailable(p.atMS)
 				if n < lo+1 || n > hi+1 {
-					return hx.V("first-number", "wall-clock session rep %s: first media segment is n=%d; the live edge was n=%d when the session was created and n=%d when the upload arrived", r.id, n, lo, hi), inf
+					return hx.V("first-number", "wall-clock session rep %s: first media segment is n=%d; the newest complete segment was n=%d when the session had been created and its last init segment answered, and n=%d when this upload arrived", r.id, n, lo, hi), inf
 				}
 			} else if n != first+int64(k) {
 				return hx.V("numbers-not-consecutive", "wall-clock session rep %s: media upload %d is segment n=%d, expected n=%d", r.id, k+1, n, first+int64(k)), inf
@@ -269,7 +286,7 @@ func TestC16WallClock(t *testing.T) {
 		}
 		return
 	}
-	run.Rapid(t, 2, 4, 40, func(rt *rapid.T) {
+	run.Rapid(t, 2, 4, 12, func(rt *rapid.T) {
 		c, e := genWall(rt)
 		v, inf := checkWall(c, e)
 		cls := []string{"wall-clock"}
@@ -278,6 +295,9 @@ func TestC16WallClock(t *testing.T) {
 		}
 		if inf.behind {
 			cls = append(cls, "wall-clock:sender-fell-behind")
+		}
+		if c.SlowInitPct > 0 {
+			cls = append(cls, "wall-clock:slow-init-uploads")
 		}
 		if inf.segments >= 2 {
 			run.NonTrivial(c)
@@ -438,7 +458,7 @@ func TestC16ConcurrentCreate(t *testing.T) {
 		}
 		return
 	}
-	run.Rapid(t, 3, 12, 120, func(rt *rapid.T) {
+	run.Rapid(t, 3, 12, 40, func(rt *rapid.T) {
 		tg := gen.Target(rt, assetgen.Opts{Audio: []string{"", "aac"}, Uniform: true, MinFrames: 10, MaxFrames: 60}, 50, []string{"testpic_2s", "testpic_8s"})
 		e, err := env.Get(tg)
 		if err != nil {
